@@ -125,7 +125,8 @@ def _check_pdf(ctx, model, Q, S, where):
                   lambda: dict(where, representation=name, a=p[:3], b=q[:3]))
     rows = rng.choice(len(Q), size=min(6, len(Q)), replace=False)
     for i in rows:
-        for name, arg in (('Series', Q.iloc[int(i)]), ('1-d ndarray', Q.iloc[int(i)].to_numpy()),
+        for name, arg in (('Series', Q.iloc[int(i)]), ('Series-permuted-index', Q.iloc[int(i)][[cols[j] for j in perm]]),
+                          ('1-d ndarray', Q.iloc[int(i)].to_numpy()),
                           ('1-row DataFrame', Q.iloc[[int(i)]])):
             q = _pdf(ctx, model, arg, dict(where, representation=name), 'pdf.row-independence')
             if q is None:
